@@ -19,6 +19,7 @@ import (
 
 	"github.com/hashicorp/nodeenrollment"
 	"github.com/hashicorp/nodeenrollment/protocol"
+	"github.com/hashicorp/nodeenrollment/registration"
 	"github.com/hashicorp/nodeenrollment/rotation"
 	"github.com/hashicorp/nodeenrollment/types"
 	"google.golang.org/protobuf/types/known/timestamppb"
@@ -195,12 +196,22 @@ func (h *contRun) enroll() bool {
 		h.viol("enrollment-failed", "honest enrollment failed in a cadence-respecting history: "+err.Error())
 		return false
 	}
-	ev := enrEv{at: h.vnow(), node: er.Node}
-	for _, b := range er.Node.Creds.CertificateBundles {
+	return h.recordEnrollment(er.Node)
+}
+
+// recordEnrollment notes which chains the node holds now. A chain counts for the root that
+// signed its leaf, and the CA certificate handed out with it has to be that root's.
+func (h *contRun) recordEnrollment(n *world.Node) bool {
+	ev := enrEv{at: h.vnow(), node: n}
+	for _, b := range n.Creds.CertificateBundles {
 		leaf, err1 := x509.ParseCertificate(b.CertificateDer)
 		ca, err2 := x509.ParseCertificate(b.CaCertificateDer)
 		if err1 != nil || err2 != nil {
 			h.viol("bad-bundle", "issued bundle does not parse")
+			return false
+		}
+		if err := leaf.CheckSignatureFrom(ca); err != nil {
+			h.viol("bad-bundle:leaf-not-under-its-ca", "a certificate handed to the node was not issued by the CA certificate handed out with it: "+err.Error())
 			return false
 		}
 		pk, _ := x509.MarshalPKIXPublicKey(ca.PublicKey)
@@ -209,6 +220,43 @@ func (h *contRun) enroll() bool {
 	h.enrs = append(h.enrs, ev)
 	h.c.R.Count("enrollments", 1)
 	return true
+}
+
+// serverCallDuringEnrollment: the operator authorizes a node, the server's periodic rotation
+// call runs, and only then does the node's fetch arrive (the node polls). The node ends up
+// with what was issued at authorization; continuity must hold for it like for any other.
+func (h *contRun) serverCallDuringEnrollment() bool {
+	n, err := world.NewNode(false, "")
+	if err != nil {
+		h.c.R.Broken("continuity: node: " + err.Error())
+		return false
+	}
+	req, err := n.FetchRequest()
+	if err != nil {
+		h.c.R.Broken("continuity: request: " + err.Error())
+		return false
+	}
+	if _, err := registration.AuthorizeNode(h.s.Ctx, h.s.Store, req, h.s.Opts()...); err != nil {
+		h.viol("enrollment-failed", "authorization failed in a cadence-respecting history: "+err.Error())
+		return false
+	}
+	if !h.serverCall() {
+		return false
+	}
+	resp, err := registration.FetchNodeCredentials(h.s.Ctx, h.s.Store, req, h.s.Opts()...)
+	if err != nil {
+		h.viol("enrollment-failed", "fetch after a rotation call failed: "+err.Error())
+		return false
+	}
+	if _, err := n.Handle(resp); err != nil {
+		h.viol("enrollment-failed", "the node refused the response fetched after a rotation call: "+err.Error())
+		return false
+	}
+	h.c.R.Count("enrollments_straddling_a_server_call", 1)
+	if k := len(h.sets); k >= 2 && h.sets[k-1].cur != h.sets[k-2].cur {
+		h.c.R.Count("enrollments_straddling_a_promotion", 1)
+	}
+	return h.recordEnrollment(n)
 }
 
 func (h *contRun) setAt(t time.Time) *setEv {
@@ -386,7 +434,12 @@ func runContCase(c *engine.Ctx, cc contCase) {
 				r.Count("histories_abandoned(boundary avoidance pushed a call past the interval bound)", 1)
 				return
 			}
-			if !h.serverCall() {
+			// every third server call falls between a node's authorization and its fetch
+			if si%3 == 1 && len(h.enrs) > 0 && cc.NodeFrac == 0 {
+				if !h.serverCallDuringEnrollment() {
+					return
+				}
+			} else if !h.serverCall() {
 				return
 			}
 			lastServer = h.vnow()
@@ -549,6 +602,7 @@ func runContinuity(c *engine.Ctx) engine.Result {
 	r.Require("histories_with_continuous_trust", int64(len(cases)/3))
 	r.Require("promotions", 200)
 	r.Require("enrollments", 200)
+	r.Require("enrollments_straddling_a_promotion", 20)
 	r.Require("real_dials_succeeded", 20)
 	r.Require("critical_instants_evaluated", 1000)
 	r.Require("negative_control_detected:no-valid-trusted-chain", 3)
